@@ -415,6 +415,8 @@ def check(ctx):
     check_table(ctx)
     check_gate(ctx)
     check_opt(ctx)
+    from ..load_model import check_conf_source
+    check_conf_source(ctx, 'C11.OPT(CONF-SRC)')
     check_record_wins(ctx, 'C11.RECORD')
     # C11.RECORD: the record of operator overrides the handler consults
     # (file_rules) is maintained together with the rule store (= C10.PAIR,
